@@ -5,6 +5,7 @@ use crate::keyring::{EncodedPk, EncodedSk, Keyring};
 use crate::model::Model;
 use crate::util::*;
 use std::io::{Read, Write};
+use std::os::unix::fs::OpenOptionsExt;
 use std::process::{Command, Stdio};
 use std::sync::atomic::{AtomicUsize, Ordering};
 use std::sync::OnceLock;
@@ -145,11 +146,49 @@ pub fn run_cmd_os(program: &str, w: &World, args: &[std::ffi::OsString], env_os:
     obs
 }
 
+/// two runs of the tool in ONE directory that overlap in time: `a` is started first and left waiting for its standard input; `b` runs
+/// from start to end (with its standard input supplied at once); then `a` receives its input and finishes. Returns (a, b); the files
+/// of the directory after both have ended are in `a.files`.
+pub fn run_kestrel_overlapped(w: &World, args_a: &[String], stdin_a: &[u8], args_b: &[String], stdin_b: &[u8]) -> (CliObs, CliObs) {
+    let dir = format!("/verif/.cache/tmp/{}-{}", std::process::id(), COUNTER.fetch_add(1, Ordering::SeqCst));
+    let _ = std::fs::remove_dir_all(&dir);
+    std::fs::create_dir_all(&dir).expect("scratch dir");
+    for (p, b) in &w.files { std::fs::write(format!("{}/{}", dir, p), b).expect("write fixture"); }
+    let mk = |args: &[String]| { let mut cmd = Command::new(bin()); cmd.args(args).current_dir(&dir).env_clear().stdin(Stdio::piped()).stdout(Stdio::piped()).stderr(Stdio::piped());
+        for (k, v) in &w.env { cmd.env(k, v); }
+        unsafe { use std::os::unix::process::CommandExt; cmd.pre_exec(|| { libc::setsid(); Ok(()) }); } cmd };
+    let finish = |mut child: std::process::Child, input: &[u8]| -> CliObs {
+        let mut obs = CliObs::default();
+        if let Some(mut si) = child.stdin.take() { let _ = si.write_all(input); }
+        let mut so = child.stdout.take().unwrap(); let mut se = child.stderr.take().unwrap();
+        let tout = std::thread::spawn(move || { let mut v = vec![]; let _ = so.read_to_end(&mut v); v });
+        let terr = std::thread::spawn(move || { let mut v = vec![]; let _ = se.read_to_end(&mut v); v });
+        let t0 = Instant::now();
+        let status = loop { match child.try_wait() { Ok(Some(s)) => break Some(s), Ok(None) => { if t0.elapsed() > Duration::from_secs(30) { let _ = child.kill(); let _ = child.wait(); obs.timed_out = true; break None; } std::thread::sleep(Duration::from_millis(2)); } Err(_) => break None } };
+        obs.stdout = tout.join().unwrap_or_default(); obs.stderr = String::from_utf8_lossy(&terr.join().unwrap_or_default()).to_string();
+        if let Some(s) = status { obs.exit = s.code(); obs.signal = s.code().is_none(); }
+        obs
+    };
+    let (mut oa, mut ob) = (CliObs::default(), CliObs::default());
+    match mk(args_a).spawn() {
+        Err(e) => { oa.stderr = format!("spawn failed: {}", e); }
+        Ok(ca) => {
+            std::thread::sleep(Duration::from_millis(200));          // `a` is now past its start-up and waits for its first line
+            match mk(args_b).spawn() { Ok(cb) => { ob = finish(cb, stdin_b); } Err(e) => { ob.stderr = format!("spawn failed: {}", e); } }
+            oa = finish(ca, stdin_a);
+        }
+    }
+    if let Ok(rd) = std::fs::read_dir(&dir) { for e in rd.flatten() { if let Ok(name) = e.file_name().into_string() { if let Ok(b) = std::fs::read(e.path()) { oa.files.push((name, b)); } } } }
+    oa.files.sort();
+    let _ = std::fs::remove_dir_all(&dir);
+    (oa, ob)
+}
+
 /// how the child's standard output is wired, and which symbolic links exist in its directory
 #[derive(Clone, Debug)]
 pub enum StdoutMode { Pipe, DevFull, CloseAfter(usize) }
 #[derive(Clone, Debug)]
-pub struct Wiring { pub stdout: StdoutMode, pub links: Vec<(String, String)> }
+pub struct Wiring { pub stdout: StdoutMode, pub links: Vec<(String, String)>, pub fifos: Vec<(String, Vec<u8>)> }
 
 /// `kestrel` with an unusual but legal wiring: standard output on a full device (every write fails with ENOSPC), or on a pipe whose
 /// reader goes away after `n` bytes (EPIPE / SIGPIPE for the rest), and symbolic links pre-created in the working directory.
@@ -160,6 +199,15 @@ pub fn run_kestrel_wired(w: &World, args: &[String], wiring: &Wiring) -> CliObs 
     std::fs::create_dir_all(&dir).expect("scratch dir");
     for (p, b) in &w.files { std::fs::write(format!("{}/{}", dir, p), b).expect("write fixture"); }
     for (l, t) in &wiring.links { let _ = std::os::unix::fs::symlink(t, format!("{}/{}", dir, l)); }
+    // named pipes: each is written ONCE by a feeder thread (what `mkfifo in; producer > in &` does); a tool that opens its input twice starves
+    let mut feeders = vec![];
+    for (name, bytes) in &wiring.fifos {
+        let path = format!("{}/{}", dir, name);
+        let c = std::ffi::CString::new(path.clone()).unwrap();
+        unsafe { libc::mkfifo(c.as_ptr(), 0o600); }
+        let b = bytes.clone();
+        feeders.push(std::thread::spawn(move || { if let Ok(mut f) = std::fs::OpenOptions::new().write(true).open(&path) { let _ = f.write_all(&b); } }));
+    }
     let mut cmd = Command::new(bin());
     cmd.args(args).current_dir(&dir).env_clear().stderr(Stdio::piped()).stdin(Stdio::piped());
     match wiring.stdout {
@@ -186,6 +234,10 @@ pub fn run_kestrel_wired(w: &World, args: &[String], wiring: &Wiring) -> CliObs 
     obs.stdout = tout.join().unwrap_or_default();
     obs.stderr = String::from_utf8_lossy(&terr.join().unwrap_or_default()).to_string();
     if let Some(s) = status { obs.exit = s.code(); obs.signal = s.code().is_none(); }
+    // a feeder whose pipe was never opened for reading is still blocked in open(): unblock it
+    for (name, _) in &wiring.fifos { let _ = std::fs::OpenOptions::new().read(true).custom_flags(libc::O_NONBLOCK).open(format!("{}/{}", dir, name)); }
+    for f in feeders { let _ = f.join(); }
+    for (name, _) in &wiring.fifos { let _ = std::fs::remove_file(format!("{}/{}", dir, name)); }
     if let Ok(rd) = std::fs::read_dir(&dir) { for e in rd.flatten() { if let Ok(name) = e.file_name().into_string() {
         if std::fs::symlink_metadata(e.path()).map(|m| m.file_type().is_symlink()).unwrap_or(false) { obs.files.push((format!("{}@symlink", name), vec![1])); }
         if let Ok(b) = std::fs::read(e.path()) { if b.len() <= (4 << 20) { obs.files.push((name, b)); } else { obs.files.push((name, format!("<{} bytes>", b.len()).into_bytes())); } } } } }
@@ -240,9 +292,29 @@ fn pairs(v: &[(String, Vec<u8>)]) -> String { if v.is_empty() { "-".into() } els
 pub fn model_cli(m: &mut Model, w: &World, args: &[String], ra: &[u8], rb: &[u8]) -> ModelObs {
     let env: Vec<(String, Vec<u8>)> = w.env.iter().map(|(k, v)| (k.clone(), v.as_bytes().to_vec())).collect();
     let mut argv = vec![hex(b"kestrel")]; for a in args { argv.push(if a.is_empty() { String::new() } else { hex(a.as_bytes()) }); }
-    let resp = m.ask(&format!("cli_run {} {} {} {} {} {}", pairs(&w.files), pairs(&env), hexd(&w.stdin), hexd(ra), hexd(rb), argv.join(",")));
-    parse_model_obs(&resp)
+    let q = format!("{} {} {} {} {} {}", pairs(&w.files), pairs(&env), hexd(&w.stdin), hexd(ra), hexd(rb), argv.join(","));
+    let resp = m.ask(&format!("cli_run {}", q));
+    let o = parse_model_obs(&resp);
+    // the GENERATED program (main.rs / commands.rs translated by tools/rs2lean_cli.py) on the same world: wherever it does not reach a
+    // streaming library call (those have no meaning in the translation) it must end like the hand-written model
+    let rsrc = m.ask(&format!("cli_run_src {}", q));
+    if rsrc.contains("libcall=0") && rsrc.contains("outoffuel=0") {
+        let g = parse_model_obs(&rsrc);
+        // (the help and version texts are not part of the hand-written model: a successful run for which it predicts no output is compared on exit status and files)
+        let informational = o.exit == 0 && o.stdout.is_empty();
+        if g.exit != o.exit || (!informational && g.stdout != o.stdout) || g.files != o.files {
+            SRC_DIFF.with(|d| { let mut d = d.borrow_mut(); if d.is_none() { *d = Some(format!("kestrel {:?}: generated program (cli_run_src) ends with exit={} stdout={}B files={:?}, the model (cli_run) with exit={} stdout={}B files={:?}",
+                args, g.exit, g.stdout.len(), g.files.iter().map(|(n, b)| (n.clone(), b.len())).collect::<Vec<_>>(), o.exit, o.stdout.len(), o.files.iter().map(|(n, b)| (n.clone(), b.len())).collect::<Vec<_>>())); } });
+        }
+    } else if !rsrc.contains("libcall=") {
+        SRC_DIFF.with(|d| { let mut d = d.borrow_mut(); if d.is_none() { *d = Some(format!("kestrel {:?}: cli_run_src answered {:?}", args, rsrc.chars().take(200).collect::<String>())); } });
+    }
+    o
 }
+
+thread_local! { static SRC_DIFF: std::cell::RefCell<Option<String>> = std::cell::RefCell::new(None); }
+/// a difference between the generated CLI program and the hand-written CLI model seen since the last call (see `model_cli`)
+pub fn take_src_diff() -> Option<String> { SRC_DIFF.with(|d| d.borrow_mut().take()) }
 
 fn parse_model_obs(resp: &str) -> ModelObs {
     let mut o = ModelObs::default();
@@ -298,6 +370,16 @@ pub fn section(i: &Ident, with_sk: bool) -> String {
 }
 
 /// a keyring text: who has a private key, in which order
-pub fn keyring(order: &[(&Ident, bool)]) -> String { order.iter().map(|(i, s)| section(i, *s)).collect::<Vec<_>>().join("\n") }
+pub fn keyring(order: &[(&Ident, bool)]) -> String {
+    // every keyring starts with public-only entries of OTHER people whose names look like the ones the cases use (case variants, prefixes,
+    // extensions): all distinct names, each with a key of its own, so a lookup that is not exact-by-name picks the wrong key
+    static DECOYS: OnceLock<String> = OnceLock::new();
+    let decoys = DECOYS.get_or_init(|| {
+        let mut r = Rng::new(0xDEC0);
+        ["Alice", "BOB", "bo", "alic", "bobby", "Carol Smith", "alice2"].iter().map(|n| { let k = r.bytes(32); let p = crate::props::c01::pub_of(&k);
+            format!("[Key]\nName = {}\nPublicKey = {}\n", n, Keyring::encode_public_key(&crate::imp::pk(&p)).as_str()) }).collect::<Vec<_>>().join("\n")
+    });
+    format!("{}\n{}", decoys, order.iter().map(|(i, s)| section(i, *s)).collect::<Vec<_>>().join("\n"))
+}
 
 pub fn sv(xs: &[&str]) -> Vec<String> { xs.iter().map(|s| s.to_string()).collect() }
